@@ -255,6 +255,9 @@ func c17Check(in c17Input) string {
 			if n, err := g.GetNodeByLabel(l); err == nil || n != nil || !errors.Is(err, graph.ErrQueryingGraph) {
 				return fmt.Sprintf("GetNodeByLabel(%q) should fail with ErrQueryingGraph, got node=%v err=%v", l, n != nil, err)
 			}
+			if n, err := r.GetNodeByLabel(l); err == nil || n != nil || !errors.Is(err, graph.ErrQueryingGraph) {
+				return fmt.Sprintf("reversed graph: GetNodeByLabel(%q) should fail with ErrQueryingGraph, got node=%v err=%v", l, n != nil, err)
+			}
 			if len(labels) == 0 {
 				continue
 			}
